@@ -965,4 +965,66 @@ example : ([(0, "Lock"), (0, "defer Unlock"), (2, "return"), (0, "return")] : Li
 
 end ConvLockProps
 
+/-! ### Deepening round 3: refusals of the conversation manager end (model functions pinned by `fact_conversation_manager_flows`) -/
+
+namespace ConvProps
+
+/-- **A request is refused only for a reason that ends.** `startConversation` refuses (nil, nothing sent, nothing stored)
+    only a `blockable` request, and only while the peer's last blocking conversation is still stored and not expired -/
+theorem refusal_needs_live_blocking_conversation (cfg : Cfg) (n : Node) (peer : Nat) (data : ConvData)
+    (h : startConversation cfg n peer data = none) :
+    data.blockable cfg = true ∧ ∃ cid c, Nuts.alGet n.lastConv peer = some cid ∧ findConv n cid = some c ∧ c.expiry > n.now := by
+  unfold startConversation at h
+  split at h
+  · rename_i hc
+    simp only [Bool.and_eq_true] at hc
+    refine ⟨hc.1, ?_⟩
+    have ha := hc.2
+    unfold hasActive at ha
+    split at ha
+    · simp at ha
+    · rename_i cid hcid
+      split at ha
+      · simp at ha
+      · rename_i c hcv
+        exact ⟨cid, c, hcid, hcv, by simpa using ha⟩
+  · simp at h
+
+/-- `done` of the peer's last blocking conversation ends the refusals for that peer -/
+theorem done_unblocks_peer (n : Node) (peer : Nat) (cid : Cid) (h : Nuts.alGet n.lastConv peer = some cid) :
+    hasActive (convDone n cid) peer = false := by
+  unfold hasActive
+  have : Nuts.alGet (convDone n cid).lastConv peer = some cid := by simpa [convDone] using h
+  rw [this]
+  have hf : findConv (convDone n cid) cid = none := by
+    simp [findConv, convDone, List.find?_eq_none]
+  simp [hf]
+
+/-- … the next request to that peer (blocking or not) is accepted -/
+theorem after_done_request_is_accepted (cfg : Cfg) (n : Node) (peer : Nat) (cid : Cid) (data : ConvData)
+    (h : Nuts.alGet n.lastConv peer = some cid) : (startConversation cfg (convDone n cid) peer data).isSome = true := by
+  unfold startConversation
+  simp [done_unblocks_peer n peer cid h]
+
+/-- … and so does time: once the clock passed every stored expiry, no peer is blocked (with `maxValidity` > 0 from
+    `fact_constants` this is a finite wait: the refusal of `sendRequest_empty` cannot persist) -/
+theorem expiry_unblocks_peer (n : Node) (peer : Nat) (t : Nat) (h : ∀ c ∈ n.convs, c.expiry ≤ t) :
+    hasActive { n with now := t } peer = false := by
+  unfold hasActive
+  split
+  · rfl
+  · split
+    · rfl
+    · rename_i c hc
+      have hm : c ∈ n.convs := List.mem_of_find?_eq_some hc
+      have := h c hm
+      simp only [decide_eq_false_iff_not]
+      omega
+
+/-- non-vacuity: a live blocking conversation with peer 1 refuses the next range query to peer 1 -/
+example : startConversation exCfg
+    { id := 0, convs := [{ cid := (0, 0), expiry := 5, data := .rangeQuery 0 1 }], lastConv := [(1, (0, 0))] } 1 (.rangeQuery 2 3) = none := by decide
+
+end ConvProps
+
 end Nuts.C07.Props
